@@ -1,4 +1,6 @@
+pub mod blake2b;
 pub mod cek_ref;
+pub mod flat_ref;
 pub mod nterm;
 pub mod evid;
 pub mod par;
